@@ -1,5 +1,5 @@
 SPECIFICATION WitnessSpec
 CONSTANTS
   Dev = {"SubstringTags", "NilBodyField"}
-INVARIANTS RoundTrip StepsAreOutcome OneContent TagIsolation
+INVARIANTS RoundTrip StepsAreOutcome OneContent TagIsolation RecordsIndependent
 CHECK_DEADLOCK FALSE
